@@ -9,6 +9,11 @@ Variable t_dot : tensor -> tensor -> R.
 Variables t_add t_mul : tensor -> tensor -> tensor.
 Variables t_smul t_sadd : R -> tensor -> tensor.
 Variables t_mean t_numel t_sum : tensor -> R.
+Variable marg : Type.
+Variable t_sobol : tensor -> tensor -> marg -> R.
+Variable t_weight : nat -> tensor.
+Variable t_mask : tensor -> tensor -> tensor.
+Variable t_dim : tensor -> nat.
 
 Definition gen_tensor_rmul_TR (self : tensor) (other : R) : tensor :=
   (t_smul other self).
@@ -58,4 +63,8 @@ Definition gen_logic_implies (t1 : tensor) (t2 : tensor) : Prop :=
   (gen_logic_is_contradiction (gen_tensor_and_TT t1 (gen_tensor_invert_T t2))).
 Definition gen_logic_equiv (t1 : tensor) (t2 : tensor) : Prop :=
   ((gen_logic_implies t1 t2) /\ (gen_logic_implies t2 t1)).
+Definition gen_anova_mean_dimension_N (t : tensor) (marginals : marg) : R :=
+  (t_sobol t (t_weight (t_dim t)) marginals).
+Definition gen_anova_mean_dimension_M (t : tensor) (mask : tensor) (marginals : marg) : R :=
+  ((t_sobol t (t_mask (t_weight (t_dim t)) mask) marginals) / (t_sobol t mask marginals)).
 End Gen.
